@@ -247,14 +247,17 @@ class Linearization(Operator):
         if np.isscalar(other):
             return self.__mul__(other)
         from .operators.outer_product_operator import OuterProduct
+        from .operators.transpose_operator import TransposeOperator
+        oval = other if other.jac is None else other._val
+        # d(self (x) other) = (J_self h) (x) other + self (x) (J_other h)
+        n_o, n_s = len(oval.domain), len(self.target)
+        left = OuterProduct(self.target, oval)  # u -> other (x) u
+        swap = TransposeOperator(left.target, tuple(range(n_o, n_o + n_s)) + tuple(range(n_o)))
+        jac = (swap @ left)(self._jac)  # h -> (J_self h) (x) other
+        tmp_op = OuterProduct(oval.domain, self._val)
         if other.jac is None:
-            return self.new(OuterProduct(other.domain, self._val)(other),
-                            OuterProduct(other.domain, self._jac(self._val)))
-        tmp_op = OuterProduct(other.target, self._val)
-        return self.new(
-            tmp_op(other._val),
-            OuterProduct(other.target, self._jac(self._val))._myadd(
-                tmp_op(other._jac), False))
+            return self.new(tmp_op(other), jac)
+        return self.new(tmp_op(other._val), jac._myadd(tmp_op(other._jac), False))
 
     def vdot(self, other):
         """Computes the inner product of this Linearization with a Field or
